@@ -157,7 +157,7 @@ func (rg *rootGeneratorPipeline) worker(ctx context.Context, wg *sync.WaitGroup,
 			for sc.Scan() {
 				currentNode, err := rg.nodeGenerator.generate(sc.Text(), counter.next())
 				if err != nil {
-					errc <- err
+					sendErr(ctx, errc, err)
 					return
 				}
 
@@ -171,14 +171,14 @@ func (rg *rootGeneratorPipeline) worker(ctx context.Context, wg *sync.WaitGroup,
 				}
 
 				if nodes == nil {
-					errc <- errNilStack
+					sendErr(ctx, errc, errNilStack)
 					return
 				}
 
 				nodes.dfs(currentNode)
 			}
 			if err := sc.Err(); err != nil {
-				errc <- err
+				sendErr(ctx, errc, err)
 				return
 			}
 			if root == nil {
